@@ -94,25 +94,25 @@ def update (s : State) (svc : SvcName) (prov owner : Addr) (dep : Option Nat) (t
         let stored := match Map.get s.pricing (svc, prov) with
           | some p => p
           | none => { base := 0, promT := [], promV := [] }
-        let parsed : Except Out Pricing := match text with
+        let parsed : Except Res Pricing := match text with
           | none => .ok stored
           | some t => match parsePricing t with
-            | .bad => .error (fail s .invalidPricing)
-            | .overflow => .error (panicOut s "NewIntFromBigInt() out of bound")
-            | .ok p => if !validPricing p then .error (fail s .invalidPricing) else .ok p
+            | .bad => .error (.err .invalidPricing)
+            | .overflow => .error (.panic "NewIntFromBigInt() out of bound")
+            | .ok p => if !validPricing p then .error (.err .invalidPricing) else .ok p
         match parsed with
-        | .error o => o
+        | .error r => (s, r, [])
         | .ok p =>
           let b3 := match text with | some t => { b2 with text := t } | none => b2
           let updated := qos ≠ 0 ∨ dep.isSome ∨ text.isSome
-          let minOk : Except Out Unit :=
+          let minOk : Except Res Unit :=
             if b3.avail ∧ updated then
               match minDeposit s.params p with
-              | none => .error (panicOut s "Int overflow")
-              | some md => if b3.deposit < md then .error (fail s .invalidDeposit) else .ok ()
+              | none => .error (.panic "Int overflow")
+              | some md => if b3.deposit < md then .error (.err .invalidDeposit) else .ok ()
             else .ok ()
           match minOk with
-          | .error o => o
+          | .error r => (s, r, [])
           | .ok _ =>
             match (if dep.isSome then bankSend s.bank owner s.cfg.deposit d else some s.bank) with
             | none => fail s .insufficientFunds
